@@ -60,8 +60,9 @@ def _worker(pid, task):
     faulthandler.dump_traceback_later(TASK_TIMEOUT_S, exit=True)
     try:
         mod = prop_module(pid)
-        from . import pipeline
+        from . import pipeline, steps
         pipeline.HANGS["active"] = True
+        steps.HANGS["active"] = True
         part = mod.run_task(task)
         return ("ok", part)
     except BaseException:
@@ -203,7 +204,9 @@ def run_check(pid, tier, seed):
             if tier != "thorough" or time.time() - t0 >= budget or len(total["fails"]) > 0:
                 break
         # determinism slice: re-run a few scenarios in a fresh interpreter under another hash seed
-        det = determinism_slice(pid, tier, seed)
+        # (skipped when violations were found: the run fails anyway, and a code under test that hangs or
+        # misbehaves would make the slice slow or meaningless)
+        det = determinism_slice(pid, tier, seed) if not total["fails"] else {"skipped": "violations found"}
     except HarnessError as e:
         print(f"HARNESS-ERROR property={pid}: {e}")
         return 2
